@@ -26,9 +26,9 @@ type Layout struct {
 func NewLayout(t *rapid.T) *Layout { return &Layout{T: t, Seps: map[string]int{}} }
 
 type tok struct {
-	s    string
-	word bool // identifier, keyword or number: needs whitespace next to another word
-	sep  bool // position of an optional list separator
+	s           string
+	word        bool // identifier, keyword or number: needs whitespace next to another word
+	sep         bool // position of an optional list separator
 	open, close bool
 }
 
@@ -36,11 +36,11 @@ type renderer struct {
 	toks []tok
 }
 
-func (r *renderer) w(s string)  { r.toks = append(r.toks, tok{s: s, word: true}) }
-func (r *renderer) p(s string)  { r.toks = append(r.toks, tok{s: s}) }
-func (r *renderer) sep()        { r.toks = append(r.toks, tok{sep: true}) }
-func (r *renderer) openDef()    { r.toks = append(r.toks, tok{open: true}) }
-func (r *renderer) closeDef()   { r.toks = append(r.toks, tok{close: true}) }
+func (r *renderer) w(s string) { r.toks = append(r.toks, tok{s: s, word: true}) }
+func (r *renderer) p(s string) { r.toks = append(r.toks, tok{s: s}) }
+func (r *renderer) sep()       { r.toks = append(r.toks, tok{sep: true}) }
+func (r *renderer) openDef()   { r.toks = append(r.toks, tok{open: true}) }
+func (r *renderer) closeDef()  { r.toks = append(r.toks, tok{close: true}) }
 func (r *renderer) lit(l Lit, lay *Layout) {
 	q := l.Quote
 	if lay == nil || lay.T == nil {
